@@ -117,6 +117,22 @@ func execC09(seg []Ev) []Ev {
 					t.SetFieldSeparators([]rune{0x1})
 					t.SetQuoteSymbols(quotes)
 					t.SetFieldSeparators(seps)
+				} else if cfg == "sameslice" {
+					// the caller keeps ONE slice for its separators (and one for its quote symbols), writes the new characters into it
+					// and hands it over again
+					sb, qb := make([]rune, len(seps)), make([]rune, len(quotes))
+					for i := range sb {
+						sb[i] = rune(0x1 + i)
+					}
+					for i := range qb {
+						qb[i] = rune(0x11 + i)
+					}
+					t.SetFieldSeparators(sb)
+					t.SetQuoteSymbols(qb)
+					copy(qb, quotes)
+					t.SetQuoteSymbols(qb)
+					copy(sb, seps)
+					t.SetFieldSeparators(sb)
 				} else if cfg == "views" {
 					// separators and quote symbols handed over as two views into ONE array of the caller's (the first one with spare
 					// capacity reaching into the second): the library copies or only reads them
@@ -223,8 +239,10 @@ func genC09(g *Gen) {
 		switch x := r.Intn(12); {
 		case x == 9:
 			cfg = "eolfirst"
-		case x == 10 || x == 11:
+		case x == 10:
 			cfg = "views"
+		case x == 11:
+			cfg = "sameslice"
 		case len(seps) == 1 && x < 3:
 			cfg = "getset"
 		case x == 3 || x == 4:
